@@ -101,7 +101,7 @@ impl<'a> Sc<'a> {
         self.out.violation(
             rule,
             &format!("{}|{}|{}", self.prop, tag, self.flags_str()),
-            json!({"scenario": self.desc, "actions": self.actions, "detail": detail, "trace": w.trace_vec().into_iter().rev().take(14).collect::<Vec<_>>()}),
+            json!({"scenario": self.desc, "actions": self.actions, "detail": detail, "trace": w.trace_vec().into_iter().rev().take(if std::env::var("VERIF_TRACE_CAP").is_ok() { 4000 } else { 14 }).collect::<Vec<_>>()}),
             self.k,
         );
     }
@@ -327,6 +327,24 @@ fn scenario(kind: Kind, seed: u64, k: u64, out: &Out) {
             Kind::C04 => *rng.pick(&["fork", "fork", "grow", "restart", "fetch_tx"]),
             Kind::C09 => *rng.pick(&["set_all", "set_partial", "set_partial", "set_delete", "grow", "restart"]),
         };
+        // C09: a third of the set_scripts calls arrive in the middle of a round - timers fired, only a few of the queued
+        // messages delivered, requests and answers (BlockFilters, SendBlock, proofs) still in flight when the RPC runs
+        if kind == Kind::C09 && action.starts_with("set_") && rng.chance(1, 3) {
+            w.round_no += 1;
+            w.advance(1000);
+            w.fire_due(&mut hook);
+            let some = rng.range(0, 6);
+            w.pump(&mut hook, some);
+            if w.dead {
+                break;
+            }
+            // what the monitor sampled during the half round is judged against the registrations of that moment
+            for snap in std::mem::take(&mut hook.snapshots) {
+                sc.judge_snapshot(&w, net.main, &snap);
+            }
+            sc.flag("mid-round");
+            sc.actions.push(format!("(half a round: {} messages delivered, the rest in flight)", some));
+        }
         match action {
             "grow" => {
                 net.grow(&mut w, rng.range(1, 12));
